@@ -2,6 +2,7 @@ import NrDaemon.Driver.Core
 import NrDaemon.Driver.Containers
 import NrDaemon.Driver.Metrics
 import NrDaemon.Driver.Limits
+import NrDaemon.Driver.Respawn
 /-!
   Op-line driver (core Lean only; built as a `lean_exe`).
 
@@ -22,6 +23,7 @@ def dispatch (st : DState) (line : String) (impl : Option String) : DState × St
   | some "slow" => let (c, o) := slowStep st.cont t impl; ({ st with cont := c }, o)
   | some "mt" => let (c, o) := mtStep st.mt t impl; ({ st with mt := c }, o)
   | some "lim" => (st, limStep t impl)
+  | some "respawn" => (st, respawnStep t impl)
   | some "reset" => ({}, { model := "ok" })
   | _ => (st, { model := "bad-op" })
 
